@@ -147,7 +147,7 @@ class Lower:
             return 'struct ' + nm
         if k == 'tuple':
             els = t[1]
-            nm = 'vp_tuple_' + (sanitize('_'.join(els)) or 'empty')
+            nm = 'vp_tuple_' + (sanitize('_'.join(self.ctype(e).replace('struct ', '').replace('*', 'p') for e in els)) or 'empty')
             if nm not in self.aux_structs:
                 self.aux_structs[nm] = ('tuple', els)
                 fl = []
@@ -165,7 +165,7 @@ class Lower:
             return 'struct ' + nm
         if k == 'pair':
             a, b = t[1]
-            nm = 'vp_pair_' + sanitize(a + '_' + b)
+            nm = 'vp_pair_' + sanitize((self.ctype(a) + '_' + self.ctype(b)).replace('struct ', '').replace('*', 'p'))
             if nm not in self.aux_structs:
                 self.aux_structs[nm] = ('pair', a, b)
                 self.rec_defs.append('struct %s { %s first; %s second; };' % (nm, self.ctype(a), self.ctype(b)))
@@ -403,9 +403,7 @@ class Lower:
         argn = ['self'] + [self.pname(p) for p in method.get('inner', []) if p.get('kind') == 'ParmVarDecl']
         rett = sig.split(' ' + nm)[0]
         ret = '' if rett == 'void' else 'return '
-        tagpath = self.idx.poly_root_paths(srec)
-        if not tagpath: raise Unsupported('virtual call on non-polymorphic record')
-        tagexpr = 'self->' + '.'.join(tagpath[0] + ['vp_tag'])
+        tagexpr = self.tag_expr(srec)
         cases = []
         for r in self.dyn_recs():
             path = self.idx.base_path(r, srec)
@@ -424,10 +422,37 @@ class Lower:
             this = dyn if not opath else '(&%s->%s)' % (dyn, '.'.join(opath))
             fnm = self.need_fn(m['id'])
             cases.append('    case %s: %s%s(%s);%s' % (self.tag_of(rc), ret, fnm, ', '.join([this] + argn[1:]), '' if ret else ' return;'))
-        body = '%s\n{\n  switch (%s) {\n%s\n    default: %s%s(%s);%s\n  }\n}\n' % (sig, tagexpr, '\n'.join(cases), ret, stub, ', '.join(argn), '' if ret else ' return;')
+        body = '%s\n{\n  switch (%s) {\n%s\n    case %s: %s%s(%s);%s\n    default: vp_bad_dispatch(); %s\n  }\n}\n' % (
+            sig, tagexpr, '\n'.join(cases), self.user_tag(srec), ret, stub, ', '.join(argn), '' if ret else ' return;', 'return _vp_d;' if ret else 'return;')
+        if ret: body = body.replace('{\n  switch', '{\n  %s _vp_d;\n  switch' % rett, 1)
         self.dispatchers[nm] = body
         self.protos.append(sig + ';')
         return nm
+
+    def root_of(self, srec):
+        r = srec
+        while True:
+            nxt = None
+            for b, br in self.idx.bases(r):
+                if br is not None and self.idx.is_polymorphic(br): nxt = br; break
+            if nxt is None: return r
+            r = nxt
+
+    def tag_expr(self, srec):
+        """the ghost tag is read through a pointer to the polymorphic ROOT type: CBMC then resolves the read
+        by type+offset in whatever object the pointer designates (e.g. a list sentinel embedded in another
+        object) and can filter the points-to set per switch case"""
+        tagpath = self.idx.poly_root_paths(srec)
+        if not tagpath: raise Unsupported('virtual call on non-polymorphic record')
+        root = self.root_of(srec)
+        rc = self.need_rec(root)
+        if all(p == '_b0' for p in tagpath[0]): return '((struct %s *)self)->vp_tag' % rc
+        return '(&self->%s)->vp_tag' % '.'.join(tagpath[0])
+
+    def user_tag(self, srec):
+        """tag carried by objects whose dynamic type is user code (clauses, tracers): they dispatch to the contract-only stub"""
+        rc = self.need_rec(self.root_of(srec))
+        return self.tag_of('USER_' + rc)
 
     def need_dtor_dispatch(self, srec):
         sc = self.need_rec(srec)
@@ -436,8 +461,7 @@ class Lower:
         self.dispatchers[nm] = None
         stub = 'vs_dtor_' + sc
         self.stubs.setdefault(stub, 'void %s(struct %s * self)' % (stub, sc))
-        tagpath = self.idx.poly_root_paths(srec)
-        tagexpr = 'self->' + '.'.join(tagpath[0] + ['vp_tag'])
+        tagexpr = self.tag_expr(srec)
         cases = []
         for r in self.dyn_recs():
             path = self.idx.base_path(r, srec)
@@ -447,7 +471,7 @@ class Lower:
             else: dyn = '((struct %s *)((char *)self - __builtin_offsetof(struct %s, %s)))' % (rc, rc, '.'.join(path))
             cases.append('    case %s: %s(%s); return;' % (self.tag_of(rc), self.need_complete_dtor(r), dyn))
         sig = 'void %s(struct %s * self)' % (nm, sc)
-        self.dispatchers[nm] = '%s\n{\n  switch (%s) {\n%s\n    default: %s(self); return;\n  }\n}\n' % (sig, tagexpr, '\n'.join(cases), stub)
+        self.dispatchers[nm] = '%s\n{\n  switch (%s) {\n%s\n    case %s: %s(self); return;\n    default: vp_bad_dispatch(); return;\n  }\n}\n' % (sig, tagexpr, '\n'.join(cases), self.user_tag(srec), stub)
         self.protos.append(sig + ';')
         return nm
 
@@ -497,5 +521,9 @@ class Lower:
         hdr += [s + ';' for s in sorted(self.stubs.values())]
         hdr += sorted(set(self.protos))
         hdr += ['#define %s %s' % (a, c) for a, c in aliases]
+        for a, pat in self.cfg.get('stub_aliases', {}).items():
+            ms = [k for k in self.stubs if re.search(pat, k)]
+            if len(ms) != 1: raise Unsupported('stub alias %s (%s) matched %d stubs' % (a, pat, len(ms)))
+            hdr.append('#define %s %s' % (a, ms[0]))
         src = list(self.bodies) + [d for d in self.dispatchers.values() if d] + [d for d in self.deleters.values() if d]
         return '\n'.join(hdr) + '\n', '\n'.join(src) + '\n'
